@@ -1553,7 +1553,33 @@ pub fn client_send_failure_reports_cause() -> Value {
 				"observed": joined, "expected":"the watcher, the pending call and the later call all report the disconnect cause — never the placeholder"});
 		}
 	}
-	json!({"probe":"client_send_failure_reports_cause","disagrees":false,"histories_tried":11})
+	// the cause does not change once it has been reported: a send failure (cause recorded), and while the transport's close()
+	// is still running the receive side fails too — every observer, before and after, reports the FIRST cause
+	{
+		let rt = tokio::runtime::Builder::new_multi_thread().worker_threads(2).enable_all().build().unwrap();
+		let out = rt.block_on(async move {
+			let (c, peer) = mock::failing_client2(ClientBuilder::default().request_timeout(std::time::Duration::from_secs(3)), 1, false);
+			let c = std::sync::Arc::new(c);
+			let c1 = c.clone();
+			let failing_task = tokio::spawn(async move { c1.request::<u64, _>("m", rpc_params![]).await.map_err(|e| e.to_string()) });
+			tokio::time::sleep(std::time::Duration::from_millis(10)).await;
+			let early = tokio::time::timeout(std::time::Duration::from_secs(2), c.on_disconnect()).await.map(|e| e.to_string());
+			let _ = peer.to_client.send(Err("reset by peer".to_string()));
+			tokio::time::sleep(std::time::Duration::from_millis(120)).await;
+			let late = tokio::time::timeout(std::time::Duration::from_secs(2), c.on_disconnect()).await.map(|e| e.to_string());
+			let failing = tokio::time::timeout(std::time::Duration::from_secs(2), failing_task).await.map(|r| r.ok());
+			let later_call = c.request::<u64, _>("later", rpc_params![]).await.map_err(|e| e.to_string());
+			vec![format!("failing call: {failing:?}"), format!("on_disconnect at once: {early:?}"), format!("on_disconnect after the receive side failed too: {late:?}"), format!("later call: {later_call:?}")]
+		});
+		let joined = out.join(" | ");
+		if std::env::var("VERIF_PROBE_DEBUG").is_ok() { eprintln!("{joined}"); }
+		if joined.contains("could not be found") || joined.contains("reset by peer") || joined.matches("broken pipe").count() < 4 {
+			return json!({"probe":"client_send_failure_reports_cause","disagrees":true,
+				"input": "a call's send fails with 'broken pipe'; while close() (50 ms) is running the receive side fails with 'reset by peer'; on_disconnect is read before and after, then another call is issued",
+				"observed": joined, "expected":"all four report the first cause (broken pipe)"});
+		}
+	}
+	json!({"probe":"client_send_failure_reports_cause","disagrees":false,"histories_tried":12})
 }
 
 // ------------------------------------------------------------------------------------------
@@ -1946,7 +1972,50 @@ pub fn subscription_bookkeeping() -> Value {
 				return fail("subscription accepted; the connection ends while the handler is busy; afterwards the handler calls is_closed(), closed().await and send()", rep, "is_closed=true closed_completed=true sent=false");
 			}
 		}
-		json!({"probe":"subscription_bookkeeping","disagrees":false,"histories_tried":5})
+		// H6: the connection's outgoing buffer is full; the handler gives up on accept() after a timeout (the accept future is dropped
+		// at its await) and returns: the subscribe call fails, the slot is free again, and the id names NO subscription
+		{
+			use jsonrpsee_core::server::{BoundedSubscriptions, ConnectionId, MethodCallback, MethodSink, Methods, SubscriptionState};
+			use jsonrpsee_types::{Params, SubscriptionId};
+			#[derive(Debug)]
+			struct Seven;
+			impl jsonrpsee_core::traits::IdProvider for Seven { fn next_id(&self) -> SubscriptionId<'static> { SubscriptionId::Num(7) } }
+			let done = std::sync::Arc::new(tokio::sync::Notify::new());
+			let mut module6 = RpcModule::new(done.clone());
+			module6
+				.register_subscription("sub6", "notif6", "unsub6", |_, pending, ctx, _| async move {
+					if let Ok(Ok(sink)) = tokio::time::timeout(std::time::Duration::from_millis(100), pending.accept()).await {
+						sink.closed().await;
+					}
+					ctx.notify_one();
+				})
+				.unwrap();
+			let methods: Methods = module6.into();
+			let (tx, mut rx) = tokio::sync::mpsc::channel(1);
+			let sink = MethodSink::new(tx);
+			let _ = sink.send(serde_json::value::to_raw_value(&"filler").unwrap()).await;
+			let cap = BoundedSubscriptions::new(1);
+			let permit = cap.acquire().unwrap();
+			let (sub_cb, unsub_cb) = match (methods.method_with_name("sub6"), methods.method_with_name("unsub6")) {
+				(Some((_, MethodCallback::Subscription(a))), Some((_, MethodCallback::Unsubscription(b)))) => (a.clone(), b.clone()),
+				_ => return fail("H6 setup", "callbacks not found".into(), "subscription + unsubscription callbacks"),
+			};
+			let ids = Seven;
+			let state = SubscriptionState { conn_id: ConnectionId(3), id_provider: &ids, subscription_permit: permit };
+			let rp = (sub_cb)(Id::Number(1), Params::new(None), sink.clone(), state, http::Extensions::new()).await;
+			let _ = tokio::time::timeout(std::time::Duration::from_secs(2), done.notified()).await;
+			let slot_back = cap.acquire().is_some();
+			let first = rx.recv().await.map(|m| m.get().to_string());
+			let nothing_else = rx.try_recv().is_err();
+			let un = (unsub_cb)(Id::Number(2), Params::new(Some("[7]")), ConnectionId(3), usize::MAX, http::Extensions::new());
+			let unv: Value = serde_json::from_str(un.as_json().get()).unwrap_or(Value::Null);
+			let obs = format!("subscribe answered with error={} slot_returned={slot_back} buffered={first:?} nothing_else_sent={nothing_else} unsubscribe -> {}", rp.is_error(), unv["result"]);
+			if !(rp.is_error() && slot_back && nothing_else && unv["result"] == json!(false)) {
+				return fail("the connection's buffer (1 message) is full; the handler abandons accept() after 100 ms and returns; then unsubscribe names the id", obs,
+					"subscribe call failed, slot returned, nothing sent, unsubscribe -> false");
+			}
+		}
+		json!({"probe":"subscription_bookkeeping","disagrees":false,"histories_tried":6})
 	})
 }
 
